@@ -36,7 +36,7 @@ ASSUMPTIONS = [
   'the raw result of FrozenDict.tree_flatten_with_keys (an internal pytree-protocol method) is not mutated; flattening goes through jax.tree_util',
   'hash checks only where every leaf is hashable',
 ]
-PROBES = ['mutation_of_source_after_freeze', 'mutation_of_unfreeze_result', 'mutation_of_copy_argument', 'mutation_of_handed_out_dict', 'hash_checked', 'order_variant', 'pickle_roundtrip', 'struct_runs', 'retrace_on_static_change', 'cache_hit_on_dynamic_change', 'nested_frozen_in_source']
+PROBES = ['mutation_of_source_after_freeze', 'mutation_of_unfreeze_result', 'mutation_of_copy_argument', 'hash_checked', 'order_variant', 'pickle_roundtrip', 'struct_runs', 'retrace_on_static_change', 'cache_hit_on_dynamic_change', 'nested_frozen_in_source']
 
 
 def setup_worker(w, tier):
